@@ -18,7 +18,84 @@ import build as B
 import common as H
 from common import Case, Node
 
-UNIV = ["s:a", "s:b", "s:ab", "s:A", "i:7", "i:0", "e:1", "e:1", "p:1", "s:", "t:1,2", "s:a1", "i:3"]
+UNIV = ["s:a", "s:b", "s:ab", "s:A", "i:7", "i:0", "e:1", "e:1", "p:1", "s:", "t:1,2", "s:a1", "i:3",
+        # data flavours whose str() / repr() / format() are three different strings, str subclasses, objects equal to a str
+        "f:1", "f:1", "f:2", "u:a", "q:a", "u:b"]
+
+
+def doc_name(obj) -> str:
+    """THE name of a node, from the clean definition of `Node.name` (``f"{self.data}"``): format(data, "") -
+    computed from the data object, never through the implementation's `node.name`."""
+    return format(obj, "")
+
+
+class Fmt:
+    """Value object with independently overridden __str__, __repr__, __format__ (all different); value equality."""
+
+    def __init__(self, v):
+        self.v = v
+
+    def __str__(self):
+        return f"s{self.v}"
+
+    def __repr__(self):
+        return f"r{self.v}"
+
+    def __format__(self, spec):
+        return f"f{self.v}"
+
+    def __eq__(self, other):
+        return isinstance(other, Fmt) and self.v == other.v
+
+    def __hash__(self):
+        return hash(("Fmt", self.v))
+
+
+class SFmt(str):
+    """A str subclass (equal to and hashing like the plain string) with its own __str__ / __repr__ / __format__."""
+
+    def __str__(self):
+        return str.upper(self) + "!"
+
+    def __repr__(self):
+        return "<" + str.__str__(self) + ">"
+
+    def __format__(self, spec):
+        return "~" + str.__str__(self)
+
+
+class LikeStr:
+    """Not a str, but equal to the plain string and hashing like it; str() is the string, repr() is not."""
+
+    def __init__(self, s):
+        self.s = s
+
+    def __eq__(self, other):
+        return (isinstance(other, str) and other == self.s) or (isinstance(other, LikeStr) and other.s == self.s)
+
+    def __hash__(self):
+        return hash(self.s)
+
+    def __str__(self):
+        return self.s
+
+    def __repr__(self):
+        return f"LikeStr({self.s!r})"
+
+
+def make_universe(specs):
+    objs = []
+    for sp in specs:
+        k, _, v = sp.partition(":")
+        if k == "f":
+            objs.append(Fmt(int(v)))
+        elif k == "u":
+            objs.append(SFmt(v))
+        elif k == "q":
+            objs.append(LikeStr(v))
+        else:
+            objs.append(B.make_obj(sp))
+    return H.Universe(objs)
 
 # ---------------------------------------------------------------------------
 # Regular expressions as SYNTAX TREES.  The pattern string handed to nutree (and to the real `re` for the oracle) is
@@ -135,7 +212,7 @@ _APPLY_KEEP: list = []
 
 
 def build_tree(desc, U=None):
-    U = U or B.make_universe(desc["univ"])
+    U = U or make_universe(desc["univ"])
     tree = B.new_tree(desc)
     typed = bool(desc.get("typed"))
     created = []
@@ -319,7 +396,7 @@ class Prop:
     case_vo = "theories/Cases/CaseC09.vo"
     run_fn = "run09s"
     shard = 19
-    rule = ("trees with clones: every ordered forest with <= N nodes (N=4 quick, 5 thorough) under 6 labelings (distinct strings; clones in "
+    rule = ("trees with clones: every ordered forest with <= N nodes (N=4 quick, 5 thorough) under 7 labelings (data objects whose str/repr/format differ, str subclasses and objects equal to a plain str; distinct strings; clones in "
             "different parents; all leaves clones of each other; equal-comparing objects; explicit int/str data_ids and node_ids colliding with int data; falsy data 0 / '') "
             "x {as built, siblings created last-to-first, a clone removed / re-added / moved, a clone moved behind its later clone} plus seeded random trees (<= 14 nodes quick, <= 30 "
             "thorough; plain and typed; default, name-based and hash-mod-7 calc_data_id) shuffled by random moves/removals/additions so the "
@@ -332,7 +409,7 @@ class Prop:
             "tree[key], key in tree, del tree[key] for every key kind (data object, int/str data_id, node_id, float/bool/tuple, absent, "
             "ambiguous, None, a Node).  A case is one tree with all its queries; distinct = distinct (universe, nodes, ops, calc); "
             "non-trivial = >= 3 nodes and a clone group of size >= 2")
-    exhaustive_note = "all shapes <= N nodes (N=4 quick) x 6 labelings x 4 shuffles, every start node, every matcher, k in {None,1,2,3}"
+    exhaustive_note = "all shapes <= N nodes (N=4 quick) x 7 labelings x 4 shuffles, every start node, every matcher, k in {None,1,2,3}"
     assumptions = [
         "identity of nodes is the allocation index recorded by a harness-side wrapper of Node.__init__",
         "patterns inside the modelled regex syntax (literals, `.`, sets/ranges/negated sets, \\d, concatenation, |, *, +, ?, IGNORECASE on "
@@ -341,6 +418,9 @@ class Prop:
         "patterns outside that syntax: re.fullmatch is a pure predicate of the node name (the harness evaluates the real `re` and passes "
         "the truth table)",
         "callbacks are pure predicates of the node",
+        "a node's name (the model's i_name) is format(data, '') - the clean definition f\"{self.data}\" of Node.name - computed by the "
+        "harness from the data object; node.name is observed for every node and compared with it (data objects whose str / repr / "
+        "format differ), and every node must be found by a pattern search for its own escaped name",
         "registry and clone index are read from tree._node_by_id / tree._nodes_by_data_id; their well-formedness (hypothesis of the "
         "index-path theorems) is decided by the model's state_wf_b on every case",
         "max_results >= 0 (None and 0 mean unlimited); negative limits are outside the property",
@@ -389,6 +469,8 @@ class Prop:
             lambda i, d, s, *_: ([4, 0, 12, 4, 1][i % 5], None, [None, 7, None, "a", 3][i % 5], [3, 1, 7, None, 11][i % 5]),
             lambda i, d, s, *_: ([5, 9, 0, 5, 9][i % 5], None, [None, None, 0, None, ""][(i + d) % 5], None),   # falsy data / data_id
             lambda i, d, s, t: ((1 if not t else [0, 2, 3, 11][d % 4]), None, None, None),    # every leaf carries the same data
+            # str() / repr() / format() all different, a str subclass and a non-str object equal to the plain string "a"
+            lambda i, d, s, *_: ([13, 16, 0, 17, 14, 15, 18][(i + d) % 7], None, None, None),
         ]
         shuffles = [([], False), ([], True), ([["rm", 1], ["add", 0, 1, None, 7], ["mvc", 1, -1], ["mv", 2, 0, 0]], False),
                     ([["mvc", 0, -1]], True)]
@@ -402,6 +484,8 @@ class Prop:
                         # reversed creation order as well (index order != pre-order inside one branch)
                         if n >= nmax and n >= 4 and si != (li + shi) % 4 and not (li in (1, 5) and si == 1):
                             continue
+                        if n >= 4 and ((li == 6 and shi % 2) or (li == 0 and not shi % 2)):
+                            continue                           # largest size: the plain-string and the str/repr/format labelings share the shapes
                         if n <= 2 and si >= 2:                 # tiny trees: as built / reversed only
                             continue
                         if 2 < n < nmax and si % 2 != (li + shi) % 2:   # middle sizes: two of the four shuffles, rotating
@@ -515,7 +599,7 @@ class Prop:
         for n in nodes:
             lid(n)
         ctx = dict(pos={id(n): i for i, n in enumerate(nodes)})
-        names = sorted({f"{n._data}" for n in nodes})
+        names = sorted({doc_name(n._data) for n in nodes})
 
         # --- matchers: python objects + truth tables
         matchers = []          # (python match argument, coq term, predicate for the oracle)
@@ -527,7 +611,7 @@ class Prop:
                 term = "(MRe " + H.coq_list(H.coq_text(s) for s in names if rx.fullmatch(s)) + ")"
             else:                           # modelled syntax: the model decides fullmatch itself
                 term = f"(MRx {H.coq_bool(form != 'str')} {H.coq_bool(bool(flags & re.IGNORECASE))} {rx_coq(rxt)})"
-            matchers.append((arg, term, (lambda rx: lambda n: rx.fullmatch(f"{n._data}") is not None)(rx)))
+            matchers.append((arg, term, (lambda rx: lambda n: rx.fullmatch(doc_name(n._data)) is not None)(rx)))
         for pn in PREDS:
             fn = make_pred(pn, ctx)
             table = [lid(n) for n in nodes if fn(n)]
@@ -538,6 +622,29 @@ class Prop:
         for o in ident:
             matchers.append((o, f"(MIs {U.index(o)})", (lambda o: lambda n: n._data is o)(o)))
         n_re, n_pr = len(REGEXES), len(PREDS)
+        # every node must be found by a search for its own escaped name: one literal pattern per distinct name the
+        # IMPLEMENTATION reports (node.name), sent to the model as syntax, judged by the oracle on the pinned name
+        selfm = {}
+        self_of = []
+
+        def reported_name(n):
+            r = call(lambda: n.name)
+            return r[1] if r[0] == 0 and isinstance(r[1], str) else doc_name(n._data)
+
+        for n in nodes:
+            nm = reported_name(n)
+            if nm not in selfm:
+                lit = ("eps",)
+                for ch in reversed(nm):
+                    lit = ("chr", ch) if lit == ("eps",) else ("cat", ("chr", ch), lit)
+                pat = rx_render(lit)
+                assert pat == re.escape(nm)
+                rx = re.compile(pat)
+                selfm[nm] = len(matchers)
+                form = ["str", "tuple"][len(selfm) % 2]
+                matchers.append((pat if form == "str" else (pat, 0), f"(MRx {H.coq_bool(form != 'str')} false {rx_coq(lit)})",
+                                 (lambda rx: lambda n: rx.fullmatch(doc_name(n._data)) is not None)(rx)))
+            self_of.append(selfm[nm])
 
         # --- data / data_id / key material
         present_dids = []
@@ -575,6 +682,9 @@ class Prop:
                 queries.append(("NFA", p, None, None, d, ks))
                 queries.append(("nff", p, None, None, d))
             queries.append(("clones", p))
+            queries.append(("name", p))
+            if not later:
+                queries.append(("NFA", p, None, self_of[p], None, [None]))    # add_self sweep: the node itself by its own name
             if later:
                 continue
             # argument conflicts and the bare call
@@ -582,7 +692,11 @@ class Prop:
             queries.append(("NFA", p, data_objs[0], None, 7, [None]))
             queries.append(("NFA", p, None, 0, 7, [1]))
             queries.append(("nff", p, data_objs[0], 0, None))
+        n_fixed = n_re + n_pr + len(ident)                 # the matchers behind are the per-name literals
         for mi in (mi_all[::2] if later else mi_all):      # after a mutation: every second matcher tree-wide
+            if mi >= n_fixed:
+                queries.append(("TFA", None, mi, None, [None, 1]))
+                continue
             queries.append(("TFA", None, mi, None, ks))
             queries.append(("tff", None, mi, None, None))
         for o in data_objs:
@@ -610,8 +724,10 @@ class Prop:
             queries.append(("in", kq))
         if not full:
             qr = random.Random(desc.get("qseed", 0))
-            keep = [q for q in queries if q[0] in ("get", "in", "clones")]
-            rest = [q for q in queries if q[0] not in ("get", "in", "clones")]
+            keep = [q for q in queries if q[0] in ("get", "in", "clones", "name")
+                    or (q[0] == "NFA" and q[3] is not None and q[3] == self_of[q[1]] and q[5] == [None])
+                    or (q[0] == "TFA" and q[2] is not None and q[2] >= n_fixed)]
+            rest = [q for q in queries if q not in keep]
             qr.shuffle(rest)
             # after a mutation the tree-wide pattern / predicate searches come first
             tfirst = [q for q in rest if later and q[0] in ("TFA", "tff") and q[2] is not None][:14]
@@ -760,6 +876,11 @@ class Prop:
                 cq = f"QTreeFindFirst {c_oz(did_ix(st, dcalc(data)))} {c_oz(mi)} {c_oz(did_ix(st, did))} {c_oz(node_id)}"
             return o, "(" + cq + ")"
 
+        if kind == "name":
+            n = nodes[q[1]]
+            r = call(lambda: n.name)
+            return ([0, r[1]] if r[0] == 0 and isinstance(r[1], str) else ([1, 8] if r[0] == 0 else r)), f"(QName {lid(n)})"
+
         if kind == "clones":
             n = nodes[q[1]]
             r1 = call(lambda: n.is_clone())
@@ -814,7 +935,7 @@ class Prop:
         def fail(msg, exp):
             # the text before the first ':' is the category the runner groups failing inputs by
             cat = {"nfa": "Node.find_all", "nff": "Node.find_first", "tfa": "Tree.find_all", "tff": "Tree.find_first",
-                   "get": "tree[key]", "in": "key in tree", "del": "del tree[key]", "clones": "Node.is_clone/get_clones"}[kind]
+                   "get": "tree[key]", "in": "key in tree", "del": "del tree[key]", "clones": "Node.is_clone/get_clones", "name": "Node.name / pattern search by name"}[kind]
             if kind in ("nfa", "nff", "tfa", "tff"):
                 by = "match" if q[3 if kind[0] == "n" else 2] is not None else "data/data_id"
                 d = q[2 if kind[0] == "n" else 1]
@@ -878,6 +999,20 @@ class Prop:
             exp = allm[:k] if k else allm
             exp = [0, ids(exp)]
             return None if o == exp else fail("ordered search", exp)
+
+        if kind == "name":
+            n = nodes[q[1]]
+            exp = [0, doc_name(n._data)]
+            if o != exp:
+                return fail("the node's name is format(data, '')", exp)
+            # ... and a pattern search for that very name (escaped), tree-wide and from the node itself, finds the node
+            pat = re.escape(o[1])
+            for what, fn in (("tree.find_all", lambda: tree.find_all(match=pat)), ("tree.find_all((pattern, flags))", lambda: tree.find_all(match=(pat, 0))),
+                             ("node.find_all(add_self)", lambda: n.find_all(match=pat, add_self=True))):
+                r = call(fn)
+                if r[0] != 0 or not any(x is n for x in r[1]):
+                    return fail(f"node is not found by {what} for its own escaped name {pat!r}", "a result containing the node")
+            return None
 
         if kind == "clones":
             n = nodes[q[1]]
@@ -986,6 +1121,10 @@ PHASES = [
 ]
 
 CORPUS = [
+    # seed C09-10 family: name = format(data, ""), and a pattern search tests that very name
+    dict(univ=["s:k", "f:1", "f:2", "u:a", "q:a", "s:a"], calc=None, typed=False, mode="full", ks=[-1, 1],
+         nodes=[[0, None, None, [[1, None, None, [], None], [2, None, None, [], None], [3, None, None, [], None]], None],
+                [4, None, None, [[1, None, None, [], None], [5, None, None, [], None]], None]], ops=[]),
     # D26: Tree.find_all(data, max_results=k) sliced the wrong way and returned the live index list
     dict(univ=["s:a", "s:b"], calc=None, typed=False, mode="full", ks=[-1, 1, 2],
          nodes=[[0, None, None, [[1, None, None, [], None]], None], [1, None, None, [], None],
